@@ -366,4 +366,283 @@ theorem allMemPairB_sound {A B : List (Nat × Nat)} (h : allMemPairB A B = true)
   intro a ha
   exact List.contains_iff_mem.mp ((List.all_eq_true.mp h) a ha)
 
+/-! ### wrapper ↔ bound symbol, visible signatures, record layouts (C20; added by the C20 clause audit) -/
+
+/-- `c` is a function of the C table that returns `void` (a destructor / setter: the only C functions a wrapper may call
+besides the one it is named after) -/
+def isVoidFn (H : List P) (c : Nat) : Bool := H.any fun h => h.n == c && h.ret == 0
+
+/-- Every (wrapper published as `w`, C function `c` it binds and calls) pair has `w = c`, or `c` is a helper: a `void` C
+function or one of the listed libc functions. -/
+def BindsSame (H : List P) (libc : List Nat) (calls : List (Nat × Nat)) : Prop :=
+  ∀ p ∈ calls, p.1 = p.2 ∨ isVoidFn H p.2 = true ∨ p.2 ∈ libc
+
+def bindsSameB (H : List P) (libc : List Nat) (calls : List (Nat × Nat)) : Bool :=
+  calls.all fun p => p.1 == p.2 || isVoidFn H p.2 || libc.contains p.2
+
+theorem bindsSameB_sound {H : List P} {libc : List Nat} {calls : List (Nat × Nat)}
+    (h : bindsSameB H libc calls = true) : BindsSame H libc calls := by
+  intro p hp
+  have := (List.all_eq_true.mp h) p hp
+  simp only [Bool.or_eq_true, beq_iff_eq] at this
+  rcases this with (e | v) | l
+  · exact Or.inl e
+  · exact Or.inr (Or.inl v)
+  · exact Or.inr (Or.inr (List.contains_iff_mem.mp l))
+
+/-- Every wrapper named after a C function really binds and calls that function, unless it is one of the listed native
+re-implementations (which bind nothing at all). -/
+def BindsOwn (named native : List Nat) (calls : List (Nat × Nat)) : Prop :=
+  ∀ w ∈ named, (w, w) ∈ calls ∨ w ∈ native
+
+/-- the wrappers that bind the C function of their own name -/
+def diagOf (calls : List (Nat × Nat)) : List Nat := (calls.filter fun p => p.1 == p.2).map (·.1)
+
+/-- merge-walk (`named` and `calls` ascending), linear -/
+def bindsOwnB (named native : List Nat) (calls : List (Nat × Nat)) : Bool :=
+  completeB native named (diagOf calls)
+
+theorem bindsOwnB_sound {named native : List Nat} {calls : List (Nat × Nat)}
+    (h : bindsOwnB named native calls = true) : BindsOwn named native calls := by
+  have h' := completeB_sound h
+  intro w hw
+  by_cases hn : w ∈ native
+  · exact Or.inr hn
+  · left
+    have hm := h' w hw hn
+    obtain ⟨p, hp, e⟩ := List.mem_map.mp hm
+    have hp' := List.mem_filter.mp hp
+    have e2 : p.1 = p.2 := by simpa using hp'.2
+    have : p = (w, w) := by
+      cases p with
+      | mk a b => simp only at e e2; subst e; subst e2; rfl
+    rw [← this]; exact hp'.1
+
+/-- all pairs are diagonal (a foreign declaration published under its own name binds the C symbol of that name) -/
+def allDiagB (l : List (Nat × Nat)) : Bool := l.all fun p => p.1 == p.2
+
+theorem allDiagB_sound {l : List (Nat × Nat)} (h : allDiagB l = true) : ∀ p ∈ l, p.1 = p.2 := by
+  intro p hp
+  simpa using (List.all_eq_true.mp h) p hp
+
+/-- parameter types a wrapper supplies itself and does not show to its caller: `xrl_error **` (302), the `int *` length
+out-parameter of the list functions (304), the `Crystal_Array *` catalogue argument (307) -/
+def hiddenTy (t : Nat) : Bool := t == 302 || t == 304 || t == 307
+
+/-- the signature a wrapper shows to its caller -/
+def P.vis (p : P) : P := { p with args := p.args.filter fun t => !hiddenTy t }
+
+/-- One routine of an IDL declaration set: C spelling of the name, 1 = FUNCTION / 0 = PROCEDURE, minimum and maximum
+number of positional arguments. -/
+structure R where
+  n : Nat
+  fn : Nat
+  min : Nat
+  max : Nat
+  deriving DecidableEq, Repr
+
+/-- the routine is a C function of that name; it takes exactly the C function's visible parameters; an IDL FUNCTION wraps a
+C function that returns a value -/
+def R.ok (r : R) (h : P) : Bool :=
+  h.n == r.n && r.min == r.max && r.max == h.vis.args.length && (r.fn == 0 || h.ret != 0)
+
+def RoutinesAgree (B : List R) (H : List P) : Prop := ∀ r ∈ B, ∃ h ∈ H, r.ok h = true
+
+/-- merge-walk: `B` and `H` ascending by name, linear -/
+def routineWalk : Nat → List R → List P → Bool
+  | 0, _, _ => false
+  | _ + 1, [], _ => true
+  | _ + 1, _ :: _, [] => false
+  | f + 1, r :: rs, h :: hs =>
+      if h.n < r.n then routineWalk f (r :: rs) hs else r.ok h && routineWalk f rs (h :: hs)
+
+def routinesB (B : List R) (H : List P) : Bool := routineWalk (B.length + H.length + 1) B H
+
+theorem routineWalk_sound : ∀ (f : Nat) (B : List R) (H : List P), routineWalk f B H = true → RoutinesAgree B H
+  | 0, _, _, h => by simp [routineWalk] at h
+  | _ + 1, [], _, _ => by intro r hr; cases hr
+  | _ + 1, _ :: _, [], h => by simp [routineWalk] at h
+  | f + 1, r :: rs, h :: hs, hw => by
+      unfold routineWalk at hw
+      by_cases c1 : h.n < r.n
+      · rw [if_pos c1] at hw
+        intro r' hr'
+        obtain ⟨x, hx, ok⟩ := routineWalk_sound f (r :: rs) hs hw r' hr'
+        exact ⟨x, List.mem_cons_of_mem _ hx, ok⟩
+      · rw [if_neg c1, Bool.and_eq_true] at hw
+        intro r' hr'
+        rcases List.mem_cons.mp hr' with rfl | hr'
+        · exact ⟨h, List.mem_cons_self, hw.1⟩
+        · exact routineWalk_sound f rs (h :: hs) hw.2 r' hr'
+
+theorem routinesB_sound {B : List R} {H : List P} (h : routinesB B H = true) : RoutinesAgree B H :=
+  routineWalk_sound _ B H h
+
+/-- A record type: name of the C struct it stands for and the fields (name, type code) in declaration order. -/
+structure S where
+  n : Nat
+  fields : List (Nat × Nat)
+  deriving DecidableEq, Repr
+
+/-- same number of fields, same names in the same order, types agree under the type map -/
+def fieldsOk : List (Nat × Nat) → List (Nat × Nat) → Bool
+  | [], [] => true
+  | b :: bs, c :: cs => b.1 == c.1 && tyOk b.2 c.2 && fieldsOk bs cs
+  | _, _ => false
+
+/-- Every record the binding declares is a C struct with the same field sequence. -/
+def StructsAgree (B H : List S) : Prop := ∀ b ∈ B, ∃ h ∈ H, h.n = b.n ∧ fieldsOk b.fields h.fields = true
+
+def structsB (B H : List S) : Bool := B.all fun b => H.any fun h => h.n == b.n && fieldsOk b.fields h.fields
+
+theorem structsB_sound {B H : List S} (h : structsB B H = true) : StructsAgree B H := by
+  intro b hb
+  have := (List.all_eq_true.mp h) b hb
+  obtain ⟨x, hx, ok⟩ := List.any_eq_true.mp this
+  rw [Bool.and_eq_true] at ok
+  exact ⟨x, hx, by simpa using ok.1, ok.2⟩
+
+/-- every declared member is a member of the C struct with an agreeing type (declarations that do not fix the layout) -/
+def fieldsSub (b c : List (Nat × Nat)) : Bool := b.all fun f => c.any fun g => g.1 == f.1 && tyOk f.2 g.2
+
+def StructMembersAgree (B H : List S) : Prop := ∀ b ∈ B, ∃ h ∈ H, h.n = b.n ∧ fieldsSub b.fields h.fields = true
+
+def structMembersB (B H : List S) : Bool := B.all fun b => H.any fun h => h.n == b.n && fieldsSub b.fields h.fields
+
+theorem structMembersB_sound {B H : List S} (h : structMembersB B H = true) : StructMembersAgree B H := by
+  intro b hb
+  have := (List.all_eq_true.mp h) b hb
+  obtain ⟨x, hx, ok⟩ := List.any_eq_true.mp this
+  rw [Bool.and_eq_true] at ok
+  exact ⟨x, hx, by simpa using ok.1, ok.2⟩
+
+/-- every name of `X` is a member of one of the families and absent from the binding (several families, one known list) -/
+theorem complete_all_iff_no_known {X B : List Nat} {Fs : List (List Nat)}
+    (hp : ∀ F ∈ Fs, CompleteExcept X F B) (hm : ∀ n ∈ X, (∃ F ∈ Fs, n ∈ F) ∧ n ∉ B) :
+    (∀ F ∈ Fs, Complete F B) ↔ X = [] := by
+  constructor
+  · intro hc
+    cases X with
+    | nil => rfl
+    | cons n t =>
+        obtain ⟨⟨F, hF, hn⟩, hb⟩ := hm n (by simp)
+        exact absurd (hc F hF n hn) hb
+  · intro hx; subst hx
+    intro F hF
+    exact completeExcept_nil.mp (hp F hF)
+
+/-- merge-walk: no element of `A` occurs in `B` (both strictly ascending), linear -/
+def disjointWalk : Nat → List Nat → List Nat → Bool
+  | 0, _, _ => false
+  | _ + 1, [], _ => true
+  | _ + 1, _ :: _, [] => true
+  | f + 1, a :: as, b :: bs =>
+      if a < b then disjointWalk f as (b :: bs) else if a = b then false else disjointWalk f (a :: as) bs
+
+theorem disjointWalk_sound : ∀ (f : Nat) (A B : List Nat), Sorted A → Sorted B → disjointWalk f A B = true →
+    ∀ a ∈ A, a ∉ B
+  | 0, _, _, _, _, h => by simp [disjointWalk] at h
+  | _ + 1, [], _, _, _, _ => by intro a ha; cases ha
+  | _ + 1, _ :: _, [], _, _, _ => by intro a _ hb; cases hb
+  | f + 1, a :: as, b :: bs, sA, sB, hw => by
+      have sA' := Sorted.tail sA
+      have sB' := Sorted.tail sB
+      have hA := Sorted.head_lt sA
+      have hB := Sorted.head_lt sB
+      unfold disjointWalk at hw
+      by_cases c1 : a < b
+      · rw [if_pos c1] at hw
+        have ih := disjointWalk_sound f as (b :: bs) sA' sB hw
+        intro x hx hxb
+        rcases List.mem_cons.mp hx with rfl | hx
+        · rcases List.mem_cons.mp hxb with rfl | hxb
+          · exact Nat.lt_irrefl _ c1
+          · have := hB x hxb; omega
+        · exact ih x hx hxb
+      · rw [if_neg c1] at hw
+        by_cases c2 : a = b
+        · rw [if_pos c2] at hw; cases hw
+        · rw [if_neg c2] at hw
+          have ih := disjointWalk_sound f (a :: as) bs sA sB' hw
+          intro x hx hxb
+          rcases List.mem_cons.mp hxb with rfl | hxb
+          · rcases List.mem_cons.mp hx with rfl | hx
+            · exact c2 rfl
+            · have := hA x hx; omega
+          · exact ih x hx hxb
+
+/-- merge-walk: the elements of `X` that were not met in `F` (exact when both are ascending; for soundness only
+"an element is dropped only when it was met in `F`" matters) -/
+def subtractWalk : Nat → List Nat → List Nat → List Nat
+  | 0, X, _ => X
+  | _ + 1, [], _ => []
+  | _ + 1, x :: xs, [] => x :: xs
+  | f + 1, x :: xs, b :: bs =>
+      if x < b then x :: subtractWalk f xs (b :: bs)
+      else if x = b then subtractWalk f xs bs
+      else subtractWalk f (x :: xs) bs
+
+theorem subtractWalk_sound : ∀ (f : Nat) (X F : List Nat), ∀ n ∈ X, n ∈ F ∨ n ∈ subtractWalk f X F
+  | 0, _, _, n, hn => Or.inr (by simpa [subtractWalk] using hn)
+  | _ + 1, [], _, n, hn => by cases hn
+  | _ + 1, x :: xs, [], n, hn => Or.inr (by simpa [subtractWalk] using hn)
+  | f + 1, x :: xs, b :: bs, n, hn => by
+      unfold subtractWalk
+      by_cases c1 : x < b
+      · rw [if_pos c1]
+        rcases List.mem_cons.mp hn with rfl | hn
+        · exact Or.inr List.mem_cons_self
+        · rcases subtractWalk_sound f xs (b :: bs) n hn with h | h
+          · exact Or.inl h
+          · exact Or.inr (List.mem_cons_of_mem _ h)
+      · rw [if_neg c1]
+        by_cases c2 : x = b
+        · rw [if_pos c2]
+          rcases List.mem_cons.mp hn with rfl | hn
+          · exact Or.inl (by rw [c2]; exact List.mem_cons_self)
+          · rcases subtractWalk_sound f xs bs n hn with h | h
+            · exact Or.inl (List.mem_cons_of_mem _ h)
+            · exact Or.inr h
+        · rw [if_neg c2]
+          rcases subtractWalk_sound f (x :: xs) bs n hn with h | h
+          · exact Or.inl (List.mem_cons_of_mem _ h)
+          · exact Or.inr h
+
+/-- what is left of `X` after subtracting every list of `Fs` -/
+def subtractAll : List Nat → List (List Nat) → List Nat
+  | X, [] => X
+  | X, F :: Fs => subtractAll (subtractWalk (X.length + F.length + 1) X F) Fs
+
+theorem subtractAll_sound : ∀ (Fs : List (List Nat)) (X : List Nat), ∀ n ∈ X, (∃ F ∈ Fs, n ∈ F) ∨ n ∈ subtractAll X Fs
+  | [], _, n, hn => Or.inr (by simpa [subtractAll] using hn)
+  | F :: Fs, X, n, hn => by
+      rcases subtractWalk_sound (X.length + F.length + 1) X F n hn with h | h
+      · exact Or.inl ⟨F, List.mem_cons_self, h⟩
+      · rcases subtractAll_sound Fs _ n h with ⟨G, hG, hn'⟩ | h'
+        · exact Or.inl ⟨G, List.mem_cons_of_mem _ hG, hn'⟩
+        · exact Or.inr (by simpa [subtractAll] using h')
+
+/-- every name of `X` belongs to one of the families and is absent from the binding; linear in all tables -/
+def missingAnyB (X : List Nat) (Fs : List (List Nat)) (B : List Nat) : Bool :=
+  (subtractAll X Fs).isEmpty && sortedB X && sortedB B && disjointWalk (X.length + B.length + 1) X B
+
+theorem missingAnyB_sound {X B : List Nat} {Fs : List (List Nat)} (h : missingAnyB X Fs B = true) :
+    ∀ n ∈ X, (∃ F ∈ Fs, n ∈ F) ∧ n ∉ B := by
+  simp only [missingAnyB, Bool.and_eq_true] at h
+  intro n hn
+  refine ⟨?_, disjointWalk_sound _ X B (sortedB_sound _ h.1.1.2) (sortedB_sound _ h.1.2) h.2 n hn⟩
+  rcases subtractAll_sound Fs X n hn with e | r
+  · exact e
+  · rw [List.isEmpty_iff.mp h.1.1.1] at r; cases r
+
+/-- a native re-implementation has no foreign declaration in its scope -/
+def nativeFreeB (native : List Nat) (calls : List (Nat × Nat)) : Bool :=
+  native.all fun w => calls.all fun p => p.1 != w
+
+theorem nativeFreeB_sound {native : List Nat} {calls : List (Nat × Nat)} (h : nativeFreeB native calls = true) :
+    ∀ w ∈ native, ∀ p ∈ calls, p.1 ≠ w := by
+  intro w hw p hp
+  have := (List.all_eq_true.mp ((List.all_eq_true.mp h) w hw)) p hp
+  simpa using this
+
 end XrlL4
